@@ -1,6 +1,7 @@
 import MesaModel.Model.Legacy
 import MesaModel.Model.LegacyNbhd
 import MesaModel.Model.LegacySelect
+import MesaModel.Model.LegacyPlaceRaw
 /-!
 Line-protocol driver for the legacy-grid model (C08, C09, C18-legacy).  One output line per input line.
 Producer: harness/legacy_common.py.
@@ -9,7 +10,7 @@ Producer: harness/legacy_common.py.
   scenario net N NAGENTS M a1 b1 … aM bM                                            reset (NetworkGrid)
 
 grid ops (agents are 0..NAGENTS-1; `:` introduces the script of raw random draws)
-  place a x y | remove a | move a x y | swap a b | mte a : r… |
+  place a x y (any ints: Python indexing, no wrapping) | remove a | move a x y | swap a b | mte a : r… |
   mto a random|closest|other none|warning|error K x1 y1 … xK yK : r…
   empties | exists | isempty x y (any ints: Python indexing) | mask | agents | iter | get x y | dump
   geti x (grid[x]) | getl K x1 y1 … (grid[(x1,y1),…]) | gets IX IY (grid[ix, iy]; IX/IY = I<int> or S<start>/<stop>/<step>, _ = None)
@@ -182,7 +183,7 @@ def gridLine (g : Grid) (hex : Bool) (nag : Nat) (nc : NCache) (hc : HCache) (ls
   match ws with
   | ["place", a, x, y] =>
     match a.toNat?, x.toInt?, y.toInt? with
-    | some a, some x, some y => if okA a && inGridB g (x, y) then upd (g.place a (x, y)) else bad
+    | some a, some x, some y => if okA a then upd (g.placeRaw a (x, y)) else bad   -- any ints: IndexError beyond, aliasing in -size..-1
     | _, _, _ => bad
   | ["remove", a] =>
     match a.toNat? with
